@@ -176,6 +176,20 @@ func c10Bodies(r *rand.Rand, valid []byte) []byte {
 		return []byte("{\"kind\":3}")
 	case 22:
 		return []byte("PK\x03\x04garbagezip")
+	case 23:
+		// parts that say they are forms or multipart documents themselves
+		part := func(name, ct, body string) string {
+			return "--XX\r\nContent-Disposition: form-data; name=\"" + name + "\"\r\nContent-Type: " + ct + "\r\n\r\n" + body + "\r\n"
+		}
+		nested := "--YY\r\nContent-Disposition: form-data; name=\"a\"\r\n\r\n1\r\n--YY--\r\n"
+		name := []string{"f", "g", "h"}[r.Intn(3)]
+		switch r.Intn(3) {
+		case 0:
+			return []byte(part(name, "application/x-www-form-urlencoded", "a=1&b=2") + "--XX--\r\n")
+		case 1:
+			return []byte(part(name, "multipart/form-data; boundary=YY", nested) + "--XX--\r\n")
+		}
+		return []byte(part("f", "application/x-www-form-urlencoded", "a=1") + part("g", "multipart/mixed; boundary=YY", nested) + part("h", "text/csv", "a,b\n1,2\n") + "--XX--\r\n")
 	}
 	return []byte(c10Val(r))
 }
@@ -271,6 +285,8 @@ func c10Message(r *rand.Rand, g *gen.DocGen, d *openapi3.T, ops []c10op) c10Msg 
 	}
 	p := strings.Join(segs, "/")
 	switch r.Intn(12) {
+	case 4:
+		p = o.path // the template text itself, braces and all
 	case 0:
 		p += "/"
 	case 1:
@@ -442,6 +458,9 @@ func (m *c10Msg) request() *http.Request {
 	}
 	for k, vs := range m.Header {
 		req.Header[k] = append([]string{}, vs...)
+	}
+	if len(req.Header) == 0 && len(m.URL)%2 == 0 {
+		req.Header = nil // a request assembled by hand (&http.Request{...}) has no header map at all
 	}
 	return req
 }
